@@ -387,6 +387,10 @@ func c16Ops() []timedOp {
 			build: func(src ro.Observable[int], l *c16log) func(rec *h.Rec) ro.Subscription {
 				return subTyped(ro.BufferWithTime[int](p)(src))
 			}, check: bufCheck(0)})
+		ops = append(ops, timedOp{name: fmt.Sprintf("BufferWithTimeOrCount(1,%s)", ms(int64(p))), d: p, maxTime: 8 * u,
+			build: func(src ro.Observable[int], l *c16log) func(rec *h.Rec) ro.Subscription {
+				return subTyped(ro.BufferWithTimeOrCount[int](1, p)(src))
+			}, check: bufCheck(1)})
 		ops = append(ops, timedOp{name: fmt.Sprintf("BufferWithTimeOrCount(2,%s)", ms(int64(p))), d: p, maxTime: 8 * u,
 			build: func(src ro.Observable[int], l *c16log) func(rec *h.Rec) ro.Subscription {
 				return subTyped(ro.BufferWithTimeOrCount[int](2, p)(src))
